@@ -66,6 +66,9 @@ func (c Config) parseTokens(tokens []Token) (ASTNode, Error) { //nolint: gocyclo
 				case tok.Name == "comment":
 					inComment = true
 					opaqueTok = tok
+					// a comment renders nothing, but like every other tag it stands between the texts before and
+					// after it: an empty raw node keeps whitespace control from reaching across the block
+					*ap = append(*ap, &ASTRaw{})
 				case tok.Name == "raw":
 					inRaw = true
 					opaqueTok = tok
